@@ -59,6 +59,13 @@ RegionsMag == {[k |-> "rpregion", secs |-> ss, w |-> w, o |-> o, ends |-> e, tol
                  ss \in {<<Seg(<<8, 0>>, FALSE)>>, <<Seg(<<5, 0>>, FALSE), [k |-> "cubic_smooth", c2 |-> <<4, 3>>, e |-> <<6, 5>>, rel |-> TRUE]>>},
                  w \in {1000}, o \in {0, 750}, e \in {"flush", "round", "halfwidth"}, ro \in {0, 1}}
               \cup {[k |-> "rpregion", secs |-> <<Seg(<<8, 0>>, FALSE)>>, w |-> 1000, o |-> o, ends |-> "halfwidth", tolk |-> 2, rot |-> 0, mag |-> 1] : o \in {0, -750}}
+\* a single section whose offset runs linearly from o to o1: the centre curve leaves the spine's direction
+\* (a straight spine gives a slanted straight centre line), so caps and ends follow the centre curve's
+\* tangent, not the spine's
+RegionsRamp == {[k |-> "rpregion", secs |-> ss, w |-> w, o |-> o[1], o1 |-> o[2], ends |-> e, tolk |-> t, rot |-> ro, mag |-> 1] :
+                  ss \in {<<Seg(<<8, 0>>, FALSE)>>, <<[k |-> "cubic", c1 |-> <<3, 0>>, c2 |-> <<6, 2>>, e |-> <<8, 5>>, rel |-> TRUE]>>},
+                  w \in {1000, 500}, o \in {<<0, 3000>>, <<750, -1500>>, <<-2000, 0>>}, e \in {"round", "flush"},
+                  t \in (IF Depth = "thorough" THEN {2, 3} ELSE {2}), ro \in {0, 1}}
 \* centre lines of simple paths: a tangent-continuous chain of 2-4 sections, each with its own linear
 \* offset interpolation, continuous from section to section (a kink or a jump has no exact centre curve)
 CSecs == << Seg(<<6, 0>>, TRUE), [k |-> "cubic_smooth", c2 |-> <<4, 3>>, e |-> <<6, 5>>, rel |-> TRUE],
@@ -68,7 +75,7 @@ COffs == { << <<0, 0>>, <<0, 750>>, <<750, 750>>, <<750, -300>> >>,
            << <<0, 600>>, <<600, 0>>, <<0, 0>>, <<0, -400>> >> }
 Centers == {[k |-> "rpcenter", secs |-> SubSeq(CSecs, 1, n), offs |-> SubSeq(os, 1, n), w |-> 1000, tolk |-> t]
               : n \in 2..4, os \in COffs, t \in {2, 3}}
-Init == case \in Books \cup After \cup Cmds \cup Regions \cup RegionsMag \cup Centers
+Init == case \in Books \cup After \cup Cmds \cup Regions \cup RegionsMag \cup RegionsRamp \cup Centers
 Next == UNCHANGED case
 AppendOpts == [format |-> "TXT", charset |-> "UTF-8",
                openOptions |-> <<"WRITE", "CREATE", "APPEND">>]
